@@ -14,9 +14,9 @@ ASSUMPTIONS = [
     'uniqueness is observed, the quality of the randomness is not assessed',
     'OpenSSL EVP trusted for the independent record layer',
 ]
-EVAL = ['cases']
-DISTINCT = ['mode_version', 'seeding_build', 'repro_cfg']
-REQUIRED = ['refused_without_randomness', 'started_with_randomness', 'inject_only_handshakes', 'records_sequence_checked',
+EVAL = ['cases', 'seed_sequence_resets']
+DISTINCT = ['mode_version', 'seeding_build', 'repro_cfg', 'seed_sequence_step']
+REQUIRED = ['refused_without_randomness', 'seed_sequence_resets', 'started_with_randomness', 'inject_only_handshakes', 'records_sequence_checked',
             'explicit_ivs_seen', 'iv_sets_checked_unique', 'renegotiations', 'key_changes_seen', 'connections',
             'fields_checked_pairwise_distinct', 'reproduced_pairs']
 NW = 12
